@@ -143,8 +143,10 @@ class PythonParserGenerator(IndentPrintMixin, NodeWalker):
                 {istokn}\
                 \ndef {name}(self, {self.ctx_stack[0]}: Ctx) -> Any:
             """)
+        # NOTE: a based rule parses its base rule's expression and then its own
+        exp = rule.rhs if isinstance(rule, g.BasedRule) else rule.exp
         with self.indent():
-            self.print(self.walk(rule.exp))
+            self.print(self.walk(exp))
 
     def walk_BasedRule(self, rule: g.BasedRule):
         self.walk_Rule(rule)
